@@ -314,7 +314,7 @@ func genTraceCfg(r *Rand, big bool) traceCfg {
 	c.batch = Pick(r, []int{1, 1, 2, 3, 7, 1000})
 	c.workers = Pick(r, []int{1, 1, 2, 3, 4, 8})
 	c.readers = Pick(r, []int{1, 1, 2, 3, 4})
-	c.buffer = Pick(r, []int{1, 1, 2, 3, 4})
+	c.buffer = Pick(r, []int{1, 1, 2, 3, 4, 0})
 	if c.mode == "r" {
 		var steps []string
 		total := 0
